@@ -233,6 +233,41 @@ def comparisons(t, func):
     return out
 
 
+def stateful_uses(t, func, allowed_tables=()):
+    """Reasons why `func` (nested defs included) is not a function of its arguments only, as far
+    as the AST shows: `global` / `nonlocal` declarations reaching module scope, reads of
+    module-level names bound to containers (list / dict / array) other than the coefficient
+    tables `allowed_tables`, and any store through a module-level name (x[k] = .., x.a = ..,
+    x.append(..)-style method calls on such a container).  Empty list = none found."""
+    fd = t.funcs.get(func)
+    if fd is None: raise Refusal('%s: function %s not found' % (t.path, func))
+    params = set()
+    for n in ast.walk(fd):
+        if isinstance(n, (ast.FunctionDef, ast.Lambda)):
+            a = n.args
+            params |= {x.arg for x in a.args + a.kwonlyargs + a.posonlyargs}
+    local = set(params)
+    for n in ast.walk(fd):
+        if isinstance(n, ast.Name) and isinstance(n.ctx, ast.Store): local.add(n.id)
+    why = []
+    def container(name):
+        v = t.env.get(name)
+        return isinstance(v, (list, dict, FArray, IArray, tuple)) and name not in local
+    for n in ast.walk(fd):
+        if isinstance(n, ast.Global): why.append('line %d: global %s' % (n.lineno, ', '.join(n.names)))
+        elif isinstance(n, ast.Name) and isinstance(n.ctx, ast.Load) and container(n.id) and n.id not in allowed_tables:
+            why.append('line %d: reads the module-level container `%s`' % (n.lineno, n.id))
+        elif isinstance(n, (ast.Subscript, ast.Attribute)) and isinstance(n.ctx, (ast.Store, ast.Del)):
+            b = n.value
+            while isinstance(b, (ast.Subscript, ast.Attribute)): b = b.value
+            if isinstance(b, ast.Name) and b.id not in local:
+                why.append('line %d: stores through the module-level name `%s`' % (n.lineno, b.id))
+        elif isinstance(n, ast.Call) and isinstance(n.func, ast.Attribute) and isinstance(n.func.value, ast.Name) \
+                and container(n.func.value.id) and n.func.attr in ('append', 'extend', 'insert', 'pop', 'remove', 'clear', 'update', 'setdefault', 'popitem', 'sort', 'reverse'):
+            why.append('line %d: mutates the module-level container `%s`' % (n.lineno, n.func.value.id))
+    return why
+
+
 # ---- Coq rendering ------------------------------------------------------------
 def coq_z(n):
     return '%d' % n if n >= 0 else '(%d)' % n
